@@ -135,6 +135,7 @@ struct Meth {
     std::vector<Def> defs;
     std::vector<int> def_order; // registration order of definitions
     std::vector<bool> def_live; // for histories (default all live)
+    bool attached = true;       // for histories: the method is registered in the policy
 };
 
 struct Registry {
